@@ -186,7 +186,94 @@ theorem handleDatagram_pass {W M : Nat} (hW : WOk W) {s s' : PRecv.State} (hinv 
         · rw [if_pos hkk]; exact Or.inl rfl
         · rw [if_neg hkk]; exact Or.inr ⟨(hslot1 k).2.1, (hslot1 k).1⟩
 
+/-- `handle_datagram` never clears an entry flag. -/
+theorem handleDatagram_entry_mono {W M : Nat} {s s' : PRecv.State} (hinv : Inv W M s)
+    (d : Datagram) (hd : handleDatagram s d = .ok s') :
+    ∀ k, (lget s.slots k).entryFlag = true → (lget s'.slots k).entryFlag = true := by
+  rw [handleDatagram_eq] at hd
+  by_cases hv : datagramIsValid d = true
+  case neg => rw [if_pos (by simpa using hv)] at hd; cases hd; exact fun _ h => h
+  rw [if_neg (by simp [hv])] at hd
+  obtain ⟨hchan, -, -⟩ := valid_facts d hv
+  obtain ⟨ch0, hch0⟩ := hinv.chan_get d.channelId hchan
+  rw [chanBase_of_get hch0] at hd
+  simp only at hd
+  split at hd
+  · cases hd; exact fun _ h => h
+  split at hd
+  · cases hd; exact fun _ h => h
+  rw [widx_eq hinv] at hd
+  cases ht : tryAdd s (wi W d.sequenceId) d with
+  | error t => rw [ht] at hd; cases hd
+  | ok r =>
+    obtain ⟨s1, o⟩ := r
+    rw [ht] at hd
+    have hfr := tryAdd_frame s _ d s1 o ht
+    obtain ⟨A, hA⟩ := hfr.same
+    have hent1 : ∀ j, (lget s1.slots j).entryFlag = (lget s.slots j).entryFlag := by
+      intro j
+      by_cases hj : j = wi W d.sequenceId
+      · subst hj; rw [hA]
+      · rw [hfr.other j hj]
+    cases o with
+    | none => cases hd; intro k h; rw [hent1]; exact h
+    | some p =>
+      simp only at hd
+      cases hd
+      obtain ⟨-, -, -, hs2⟩ := hdPost_facts s1 (wi W d.sequenceId) d p
+        ((cbase s d.channelId).getD s.baseId) s.baseId
+      intro k h
+      rw [hs2, lget_lset]
+      by_cases hkk : k = wi W d.sequenceId
+      · rw [if_pos hkk]
+      · rw [if_neg hkk, hent1]; exact h
+
 /-! ### the invariant -/
+
+theorem core_fields' {a b : Slot} (h : core a = core b) : a.entryFlag = b.entryFlag :=
+  (congrArg Slot.entryFlag h : (core a).entryFlag = (core b).entryFlag)
+
+/-- `Sys.Recvd` for the packet at emission position `j` with sequence id `seq`, in terms of the window
+index function of the proofs: in the log, or passed by the window base, or in the window with its
+entry flag. -/
+def RecvdW (W : Nat) (g : G) (j seq : Nat) : Prop :=
+  (∃ e ∈ g.log, e.uid = j) ∨ j < g.adv ∨
+  (j < g.adv + W ∧ (lget g.st.slots (wi W seq)).entryFlag = true)
+
+theorem RecvdW.mono {W : Nat} {g g' : G} {j seq : Nat} (h : RecvdW W g j seq)
+    (hlog : ∀ e ∈ g.log, e ∈ g'.log) (hadv : g'.adv = g.adv)
+    (hent : (lget g.st.slots (wi W seq)).entryFlag = true → (lget g'.st.slots (wi W seq)).entryFlag = true) :
+    RecvdW W g' j seq := by
+  rcases h with ⟨e, he, hu⟩ | h | ⟨h1, h2⟩
+  · exact Or.inl ⟨e, hlog e he, hu⟩
+  · exact Or.inr (Or.inl (by rw [hadv]; exact h))
+  · exact Or.inr (Or.inr ⟨by rw [hadv]; exact h1, hent h2⟩)
+
+/-- `RecvdW` survives a window advance (described as in `cinv_advance`). -/
+theorem RecvdW.advance {W M : Nat} (hW : WOk W) {b0 adv : Nat} {log log' : List LogE} {s s' : PRecv.State}
+    (hinv : Inv W M s) (hbase : s.baseId = (b0 + adv) % 2^20) (hsub : ∀ e ∈ log, e ∈ log') (nb : Nat)
+    (hδ : pidSub nb s.baseId ≤ W)
+    (hA : ∀ k, (∀ id, id < 2^20 → pidSub id s.baseId < pidSub nb s.baseId → wi W id ≠ k) →
+        core (lget s'.slots k) = core (lget s.slots k)) {j : Nat}
+    (hr : RecvdW W ⟨s, adv, log⟩ j (pidAdd b0 j)) :
+    RecvdW W ⟨s', adv + pidSub nb s.baseId, log'⟩ j (pidAdd b0 j) := by
+  rcases hr with ⟨e, he, hu⟩ | h | ⟨h1, h2⟩
+  · exact Or.inl ⟨e, hsub e he, hu⟩
+  · exact Or.inr (Or.inl (by show j < adv + _; have : j < adv := h; omega))
+  · have h1' : j < adv + W := h1
+    have h2' : (lget s.slots (wi W (pidAdd b0 j))).entryFlag = true := h2
+    rcases Nat.lt_or_ge j (adv + pidSub nb s.baseId) with hlt | hge
+    · exact Or.inr (Or.inl hlt)
+    · refine Or.inr (Or.inr ⟨by show j < adv + _ + W; omega, ?_⟩)
+      show (lget s'.slots (wi W (pidAdd b0 j))).entryFlag = true
+      have hoff : pidSub (pidAdd b0 j) s.baseId = j - adv := by
+        rw [hbase]; exact off_arith b0 adv j (by omega) (by have := hW.le; omega)
+      have hcore := hA (wi W (pidAdd b0 j)) (by
+        intro id hid hido hwi
+        have := off_eq_of_wi hW id (pidAdd b0 j) s.baseId hinv.blt (by omega) (by omega) hwi
+        omega)
+      rw [(core_fields' hcore)]
+      exact h2'
 
 /-- A packet that was completely received (entry flag) and is no longer held (no data flag) was
 taken out of the window: it is in the log, under its unwrapped id. -/
@@ -204,6 +291,9 @@ structure PInv (W : Nat) (s : Sys) : Prop where
   /-- … and was there before any packet taken out of the window after the base had passed it -/
   hist : ∀ l1 e l2, s.rcv.log = l1 ++ e :: l2 → ∀ j x, s.hist.emitted[j]? = some x →
     x.mode = .reliable → j < e.wb → ∃ e' ∈ l1, e'.uid = j
+  /-- every Reliable packet emitted before a recorded `sync` step has been completely received -/
+  sync : ∀ n id, (n, id) ∈ s.syncs → ∀ j x, s.hist.emitted[j]? = some x → x.mode = .reliable → j < n →
+    RecvdW W s.rcv j x.sequenceId
 
 theorem pinv_init (w W b a m : Nat) : PInv W (initS w W b a m) where
   rdy := by intro x _ _ hf; exact absurd hf (by simp [initS, initG, PRecv.init, lget])
@@ -213,18 +303,30 @@ theorem pinv_init (w W b a m : Nat) : PInv W (initS w W b a m) where
     intro l1 e l2 hl
     have : ([] : List LogE) = l1 ++ e :: l2 := hl
     cases l1 <;> cases this
+  sync := by intro n id hm; cases hm
 
 /-- Steps that leave the receiver's window base, `adv` and the log alone and only extend `emitted`. -/
 theorem PInv.frame {b0 w W M : Nat} {s s' : Sys} (p : PInv W s) (h : SInv b0 w W M s)
     (hrdy : Rdy W s'.rcv.st) (hent : Ent W s.rcv.adv s.rcv.log s'.rcv.st)
     (hadv : s'.rcv.adv = s.rcv.adv) (hlog : s'.rcv.log = s.rcv.log)
-    (hem : ∃ more, s'.hist.emitted = s.hist.emitted ++ more) : PInv W s' := by
+    (hem : ∃ more, s'.hist.emitted = s.hist.emitted ++ more) (hsy : s'.syncs = s.syncs)
+    (hmono : ∀ k, (lget s.rcv.st.slots k).entryFlag = true → (lget s'.rcv.st.slots k).entryFlag = true) :
+    PInv W s' := by
   obtain ⟨more, hem⟩ := hem
-  have hold : ∀ j x, j < s.rcv.adv → s'.hist.emitted[j]? = some x → s.hist.emitted[j]? = some x := by
+  have hold' : ∀ j x, j < s.hist.emitted.length → s'.hist.emitted[j]? = some x →
+      s.hist.emitted[j]? = some x := by
     intro j x hj hx
-    rw [hem, List.getElem?_append_left (by have := h.hi; omega)] at hx
+    rw [hem, List.getElem?_append_left hj] at hx
     exact hx
-  refine ⟨hrdy, by rw [hadv, hlog]; exact hent, ?_, ?_⟩
+  have hold : ∀ j x, j < s.rcv.adv → s'.hist.emitted[j]? = some x → s.hist.emitted[j]? = some x :=
+    fun j x hj hx => hold' j x (by have := h.hi; omega) hx
+  refine ⟨hrdy, by rw [hadv, hlog]; exact hent, ?_, ?_, ?_⟩
+  rotate_left 2
+  · intro n id hm j x hx hrel hj
+    rw [hsy] at hm
+    have hn := (h.syncs n id hm).1
+    exact (p.sync n id hm j x (hold' j x (by omega) hx) hrel hj).mono (by rw [hlog]; exact fun _ h => h) hadv
+      (hmono _)
   · intro j x hx hrel hj
     rw [hadv] at hj
     rw [hlog]
@@ -476,10 +578,23 @@ theorem pinv_recv {b0 w W M : Nat} (hW : WOk W) (hw : w ≤ 2^16) {s s' : Sys} (
             simp only [List.cons_append, List.cons.injEq] at h2
             obtain ⟨rfl, -⟩ := h2
             exact p.hist l1 e c'' h1 j x hx hrel hj
+      -- the recorded syncs, after the delivery pass
+      have hsync1 : ∀ n id, (n, id) ∈ s.syncs → ∀ j x, s.hist.emitted[j]? = some x → x.mode = .reliable →
+          j < n → RecvdW W ⟨s1, s.rcv.adv, log1⟩ j (pidAdd b0 j) := by
+        intro n id hm j x hx hrel hj
+        have := p.sync n id hm j x hx hrel hj
+        rw [(h.snd.hinv.ids j x hx).2.1] at this
+        exact this.mono hsub rfl (fun hen => by rw [hsh.entry]; exact hen)
       rcases hcase with ⟨-, heq⟩ | ⟨nb, hnb, hnbW, hadvw⟩
       · have heq' : pr.1 = s1 := heq
         have hz : pidSub pr.1.baseId s.rcv.st.baseId = 0 := by rw [heq', hsh.base, pidSub_self]
-        refine ⟨?_, ?_, hpassed, hhist⟩
+        refine ⟨?_, ?_, hpassed, hhist, ?_⟩
+        rotate_left 2
+        · intro n id hm j x hx hrel hj
+          rw [(h.snd.hinv.ids j x hx).2.1]
+          show RecvdW W ⟨pr.1, s.rcv.adv + pidSub pr.1.baseId s.rcv.st.baseId, log1⟩ j (pidAdd b0 j)
+          rw [hz, Nat.add_zero, heq']
+          exact hsync1 n id hm j x hx hrel hj
         · show Rdy W pr.1
           rw [heq']
           intro x hx hxo hf hd
@@ -513,7 +628,18 @@ theorem pinv_recv {b0 w W M : Nat} (hW : WOk W) (hw : w ≤ 2^16) {s s' : Sys} (
             rw [hych, hu] at this
             omega
           · omega
-        refine ⟨?_, ?_, hpassed, hhist⟩
+        refine ⟨?_, ?_, hpassed, hhist, ?_⟩
+        rotate_left 2
+        · intro n id hm j x hx hrel hj
+          rw [(h.snd.hinv.ids j x hx).2.1]
+          show RecvdW W ⟨pr.1, s.rcv.adv + pidSub pr.1.baseId s.rcv.st.baseId, log1⟩ j (pidAdd b0 j)
+          have hA1 : ∀ k, (∀ id, id < 2^20 → pidSub id s1.baseId < pidSub nb s1.baseId → wi W id ≠ k) →
+              core (lget pr.1.slots k) = core (lget s1.slots k) := hA
+          have := (hsync1 n id hm j x hx hrel hj).advance hW hinv1
+            (by rw [hsh.base]; exact h.rcv.gi.gbase) (fun _ he => he) nb
+            (by rw [hsh.base]; exact hnbW) hA1
+          rw [hbe, ← hsh.base]
+          exact this
         · show Rdy W pr.1
           intro x hx hxo hf hd
           exact absurd hd (hdone2 x hx hxo hf)
@@ -538,7 +664,8 @@ theorem pinv_deliver {b0 w W M : Nat} (hW : WOk W) {s s' : Sys} (h : SInv b0 w W
         rw [hd, bindR_ok, bindR_ok] at hs
         cases hs
         obtain ⟨hrdy, hbase, hflags⟩ := handleDatagram_pass hW h.rcv.inv p.rdy d hd
-        refine p.frame h hrdy ?_ rfl rfl ⟨[], (List.append_nil _).symm⟩
+        refine p.frame h hrdy ?_ rfl rfl ⟨[], (List.append_nil _).symm⟩ rfl
+          (handleDatagram_entry_mono h.rcv.inv d hd)
         intro x hx hxo hen
         have hxo' : pidSub x st'.baseId < W := hxo
         have hen' : (lget st'.slots (wi W x)).entryFlag = true := hen
@@ -551,17 +678,146 @@ theorem pinv_deliver {b0 w W M : Nat} (hW : WOk W) {s s' : Sys} (h : SInv b0 w W
           exact p.ent x hx hxo' hen'
     · cases hs; exact p
 
+/-! ### `sync` and `resync` -/
+
+theorem pinv_sync {b0 w W M : Nat} {s s' : Sys} (h : SInv b0 w W M s) (p : PInv W s)
+    (hs : stepS s .sync = .ok s') : PInv W s' := by
+  simp only [stepS] at hs
+  split at hs
+  · rename_i hok
+    cases hs
+    refine ⟨p.rdy, p.ent, p.passed, p.hist, ?_⟩
+    intro n id hm j x hx hrel hj
+    have hm' : (n, id) ∈ s.syncs ++ [(s.hist.emitted.length, s.snd.nextId)] := hm
+    rcases List.mem_append.mp hm' with hm' | hm'
+    · exact p.sync n id hm' j x hx hrel hj
+    · have hr := hok x (List.mem_of_getElem? hx) hrel
+      unfold Recvd at hr
+      rw [(h.snd.hinv.ids j x hx).1, widx_eq h.rcv.inv, getSlot_eq, h.rcv.inv.wsz] at hr
+      exact hr
+  · cases hs; exact p
+
+/-- A window advance that passes no entry flag and stays below a recorded sync value passes a
+Reliable packet only if that packet is in the log already. -/
+theorem resync_rel_logged {b0 w W M : Nat} (hW : WOk W) {s : Sys} (h : SInv b0 w W M s) (p : PInv W s)
+    (n id : Nat) (hmem : (n, id) ∈ s.syncs) (nb : Nat)
+    (hle : s.rcv.adv + pidSub nb s.rcv.st.baseId ≤ n) (hδ : pidSub nb s.rcv.st.baseId ≤ W)
+    (hno : ∀ x, x < 2^20 → pidSub x s.rcv.st.baseId < pidSub nb s.rcv.st.baseId →
+      (lget s.rcv.st.slots (wi W x)).entryFlag = false) :
+    ∀ j x, s.hist.emitted[j]? = some x → x.mode = .reliable → s.rcv.adv ≤ j →
+      j < s.rcv.adv + pidSub nb s.rcv.st.baseId → ∃ e ∈ s.rcv.log, e.uid = j := by
+  intro j x hx hrel h1 h2
+  have hWle := hW.le
+  rcases p.sync n id hmem j x hx hrel (by omega) with h3 | h3 | ⟨-, h4⟩
+  · exact h3
+  · omega
+  · exfalso
+    have hoff := off_arith b0 s.rcv.adv j h1 (by omega)
+    rw [← h.rcv.gi.gbase] at hoff
+    have := hno (pidAdd b0 j) (PRecv.pidAdd_lt _ _) (by rw [hoff]; omega)
+    rw [(h.snd.hinv.ids j x hx).2.1, this] at h4
+    cases h4
+
+theorem pinv_resync {b0 w W M : Nat} (hW : WOk W) (hw : w ≤ 2^16) {s s' : Sys} (h : SInv b0 w W M s)
+    (p : PInv W s) (k : Nat) (hs : stepS s (.resync k) = .ok s') : PInv W s' := by
+  simp only [stepS] at hs
+  split at hs
+  · cases hs; exact p
+  · rename_i n id hk
+    split at hs
+    · rename_i hfresh
+      rw [stepT_resync] at hs
+      cases hr : resynchronize s.rcv.st id with
+      | error t => rw [hr] at hs; cases hs
+      | ok st' =>
+        rw [hr, bindR_ok, bindR_ok] at hs
+        cases hs
+        have hmem := List.mem_of_getElem? hk
+        rcases resync_cases (by omega) h n id hmem hfresh st' hr with rfl | ⟨nb, hnb, hle, hδ, hadv, hno⟩
+        · rw [pidSub_self]
+          exact p.frame h p.rdy p.ent rfl rfl ⟨[], (List.append_nil _).symm⟩ rfl (fun _ h => h)
+        · have hinv := h.rcv.inv
+          have hord := h.rcv.ord
+          have F := advanceWindow_facts hW hinv hord nb hnb hδ hadv
+          obtain ⟨hA, hB⟩ := advanceWindow_core hW hinv hord nb hnb hδ hadv
+          obtain ⟨hrf, -⟩ := advanceWindow_rdy hinv nb hnb hadv
+          have hbe : st'.baseId = nb := F.base
+          have hWle := hW.le
+          -- every Reliable packet the base passes is in the log: the loop passes no entry flag
+          have P := resync_rel_logged hW h p n id hmem nb hle hδ hno
+          have hlogchan : ∀ e ∈ s.rcv.log, ∀ y, s.hist.emitted[e.uid]? = some y →
+              e.uid < s.rcv.adv + pidSub (cbO s.rcv.st y.channelId) s.rcv.st.baseId := by
+            intro e he y hy
+            obtain ⟨p0, hp0, c1, -⟩ := h.log e he
+            obtain ⟨-, em, hem, -, e2, -⟩ := h.snd.plink e.uid p0 hp0
+            rw [hy] at hem; cases hem
+            have := h.rcv.gi.glt e he
+            rw [c1, ← e2] at this
+            exact this
+          refine ⟨?_, ?_, ?_, p.hist, ?_⟩
+          · -- the ready flags stay live
+            show Rdy W st'
+            intro x hx hxo hf hd
+            rw [hbe] at hxo
+            obtain ⟨i1, i2, i3⟩ := adv_inwin hW hinv nb hnb hδ F x hx hxo hf
+            have hcore := hA (wi W x) (F.flag _ hf).2
+            obtain ⟨-, -, e1, e2, -⟩ := core_fields hcore
+            rw [hrf, e1]
+            apply p.rdy x hx i2 i3
+            apply Classical.byContradiction
+            intro hnd
+            obtain ⟨jp, y, hy, hyrel, hych, q1, q2, q3⟩ :=
+              blocked_parent hw h.snd hinv hord h.cinv x hx i2 i3 hnd
+            unfold Deliv cbO at hd
+            rw [e1, e2] at hd
+            cases hcb : cbase st' (lget s.rcv.st.slots (wi W x)).chan with
+            | none =>
+              rw [hcb, hbe] at hd
+              simp only [Option.getD_none] at hd
+              have hjp : jp < s.rcv.adv + pidSub nb s.rcv.st.baseId := by omega
+              obtain ⟨e, he, hu⟩ := P jp y hy hyrel (by omega) hjp
+              have := hlogchan e he y (by rw [hu]; exact hy)
+              rw [hych, hu] at this
+              omega
+            | some b =>
+              rw [hcb] at hd
+              simp only [Option.getD_some] at hd
+              obtain ⟨hcs, -⟩ := F.csome _ b hcb
+              apply hnd
+              unfold Deliv cbO
+              rw [hcs]
+              exact hd
+          · show Ent W (s.rcv.adv + pidSub st'.baseId s.rcv.st.baseId) s.rcv.log st'
+            rw [hbe]
+            exact ent_advance hW hinv p.ent nb hnb hδ F.base hA hB
+          · intro j x hx hrel hj
+            have hj' : j < s.rcv.adv + pidSub st'.baseId s.rcv.st.baseId := hj
+            rw [hbe] at hj'
+            rcases Nat.lt_or_ge j s.rcv.adv with hlt | hge
+            · exact p.passed j x hx hrel hlt
+            · exact P j x hx hrel hge hj'
+          · intro n' id' hm' j x hx hrel hj
+            rw [(h.snd.hinv.ids j x hx).2.1]
+            show RecvdW W ⟨st', s.rcv.adv + pidSub st'.baseId s.rcv.st.baseId, s.rcv.log⟩ j (pidAdd b0 j)
+            have := p.sync n' id' hm' j x hx hrel hj
+            rw [(h.snd.hinv.ids j x hx).2.1] at this
+            rw [hbe]
+            exact RecvdW.advance hW hinv h.rcv.gi.gbase (fun _ he => he) nb hδ hA this
+    · cases hs; exact p
+
 theorem pinv_step {b0 w W M : Nat} (hW : WOk W) (hw : w ≤ 2^16) {s s' : Sys} (h : SInv b0 w W M s)
     (p : PInv W s) (op : SOp) (hs : stepS s op = .ok s') : PInv W s' := by
   cases op with
   | recv => exact pinv_recv hW hw h p hs
   | deliver k => exact pinv_deliver hW h p k hs
+  | sync => exact pinv_sync h p hs
+  | resync k => exact pinv_resync hW hw h p k hs
   | enq d c m f =>
     simp only [stepS] at hs
     split at hs
     · simp only [stepH, bindR_ok] at hs
       cases hs
-      exact p.frame h p.rdy p.ent rfl rfl ⟨[], (List.append_nil _).symm⟩
+      exact p.frame h p.rdy p.ent rfl rfl ⟨[], (List.append_nil _).symm⟩ rfl (fun _ h => h)
     · cases hs; exact p
   | emit f =>
     simp only [stepS] at hs
@@ -576,7 +832,7 @@ theorem pinv_step {b0 w W M : Nat} (hW : WOk W) (hw : w ≤ 2^16) {s s' : Sys} (
         have : stepH s.snd s.hist (.emit f) = .ok (s1, s.hist) := by simp only [stepH, he]
         rw [this, bindR_ok] at hs
         cases hs
-        exact p.frame h p.rdy p.ent rfl rfl ⟨[], (List.append_nil _).symm⟩
+        exact p.frame h p.rdy p.ent rfl rfl ⟨[], (List.append_nil _).symm⟩ rfl (fun _ h => h)
       | some pr =>
         obtain ⟨pk, rs⟩ := pr
         have : stepH s.snd s.hist (.emit f) =
@@ -584,7 +840,7 @@ theorem pinv_step {b0 w W M : Nat} (hW : WOk W) (hw : w ≤ 2^16) {s s' : Sys} (
           simp only [stepH, he]
         rw [this, bindR_ok] at hs
         cases hs
-        exact p.frame h p.rdy p.ent rfl rfl ⟨[_], rfl⟩
+        exact p.frame h p.rdy p.ent rfl rfl ⟨[_], rfl⟩ rfl (fun _ h => h)
   | ack k =>
     simp only [stepS] at hs
     split at hs
@@ -601,7 +857,7 @@ theorem pinv_step {b0 w W M : Nat} (hW : WOk W) (hw : w ≤ 2^16) {s s' : Sys} (
             cases ha : acknowledge s.snd rb with
             | error t => rw [ha] at hr; cases hr
             | ok s1 => rw [ha] at hr; cases hr; rfl
-          exact p.frame h p.rdy p.ent rfl rfl ⟨[], by show r.2.emitted = _; rw [hh, List.append_nil]⟩
+          exact p.frame h p.rdy p.ent rfl rfl ⟨[], by show r.2.emitted = _; rw [hh, List.append_nil]⟩ rfl (fun _ h => h)
       · cases hs; exact p
 
 theorem pinv_run {b0 w W M : Nat} (hW : WOk W) (hw : w ≤ 2^16) (ops : List SOp) :
